@@ -5307,6 +5307,32 @@ impl<Front: SocketHandler> ConnectionH2<Front> {
             }
         }
 
+        // RFC 9110 §6.4.1: a response to HEAD, a 1xx, a 204 and a 304 cannot
+        // have content; a backend that sends DATA payload on one is malformed
+        // (RFC 9113 §8.1.1). Forwarded, the payload would follow a message that
+        // an HTTP/1.1 client has already taken as complete: the start of its
+        // "next response". (Server position: `status` may be the 100 Continue
+        // that released the very body these frames carry.)
+        if cl_exempt && self.position.is_client() && content_len > 0 {
+            error!(
+                "{} DATA payload ({} bytes) on a response that cannot have content",
+                log_context!(self),
+                content_len
+            );
+            if !self.flow_control.pending_window_updates.is_empty() {
+                self.readiness.arm_writable();
+            }
+            let result = self.reset_stream(
+                data.stream_id,
+                global_stream_id,
+                context,
+                endpoint,
+                H2Error::ProtocolError,
+            );
+            self.remove_dead_stream(data.stream_id, global_stream_id);
+            return result;
+        }
+
         let stream = &mut context.streams[global_stream_id];
         self.attribute_bytes_to_stream(&mut stream.metrics);
         let stream_state = stream.state;
